@@ -103,18 +103,53 @@ def check_tu(ctx, tu):
         ok = len(sorts) == 1 and (f.callee_key(sorts[0]) or '') in ('std::list::sort', 'std::stable_sort')
         ctx.ob('C13.S2', f, 'doSort calls the stable std::list::sort exactly once on this list', ok and (path(f, f.call_obj(sorts[0])) if ok and f.call_obj(sorts[0]) else ('this',)) == ('this',),
                detail='sorting callees: %s' % [f.callee_key(n) for n in f.calls() if 'sort' in ((f.callee(n) or {}).get('name') or '')])
-        lams = tu.lambdas_of.get(f.id, [])
-        ctx.ob('C13.S2', f, 'the comparator is the library lambda', len(lams) == 1)
-        for lam in lams:
+        comps = comparator_functions(tu, f, sorts[0]) if len(sorts) == 1 else []
+        ctx.ob('C13.S2', f, 'the sort comparator is a library function the analysis can read (lambda, functor or function)', len(comps) == 1,
+               detail='%d candidate comparator bodies' % len(comps))
+        for lam in comps:
             check_comparator(ctx, tu, lam)
 
 
 ATOMS = ('a.empty()', 'b.empty()')
 
 
+def comparator_functions(tu, f, sortcall):
+    """The library function(s) that implement the comparator passed to the sort call: a lambda's call operator, the
+    operator() of a library functor, or a library function whose address is passed."""
+    out = []
+    args = f.call_args(sortcall)
+    if not args:
+        return out
+    a = f.value_source(args[-1])
+    # a local variable holding the comparator
+    if f.nodes[a]['cls'] == 'DeclRefExpr' and f.decl(a)['kind'] == 'var':
+        vd = f.var_decls().get(f.decl(a)['id'])
+        if vd and vd.get('init'):
+            a = f.value_source(vd['init'])
+    for d in [a] + f.descendants(a):
+        o = f.nodes[d]
+        if o['cls'] == 'LambdaExpr' and o.get('fid') in tu.by_id:
+            out.append(tu.by_id[o['fid']])
+            return out
+    for d in [a] + f.descendants(a):
+        o = f.nodes[d]
+        if o['cls'] == 'DeclRefExpr' and f.decl(d)['kind'] == 'func' and f.decl(d).get('fid', -1) in tu.by_id:
+            out.append(tu.by_id[f.decl(d)['fid']])
+            return out
+    t = f.ntype(a)
+    if t and t.get('recq'):
+        for g in tu.fns:
+            if g.name == 'operator()' and g.clsq == t['recq'] and len(g.params) == 2:
+                out.append(g)
+    return out
+
+
 def check_comparator(ctx, tu, lam):
     try:
-        fm = F.formula(lam, inline=False)
+        env = {}
+        if len(lam.params) == 2:
+            env = {lam.params[0]['id']: 'a', lam.params[1]['id']: 'b'}
+        fm = F.formula(lam, env, inline=False)
     except F.Unsupported as e:
         raise AnalysisBroken('C13.S3: cannot extract the sort comparator: %s' % e)
     ats = F.atoms(fm)
